@@ -51,7 +51,8 @@ def cfg(mode):
 
 def tlc(ctx, name, mode, batch, what, variant="intended"):
     res = run_tlc(ctx.workdir / name, MODULE, cfg(mode), files={"batch.json": batch},
-                  env={"BATCH_FILE": "batch.json", "MODE": mode, "VARIANT": variant},
+                  env={"BATCH_FILE": "batch.json", "MODE": mode, "VARIANT": variant,
+                       "_JAVA_OPTIONS": "-Xss64m"},      # recursive folds over long corridor runs need a deeper stack
                   coverage=False, continue_=(variant == "intended"))   # -coverage 1 exhausts the heap on this module
     if variant == "intended":
         ac = ctx.extra.setdefault("machine_actions_in_emitted_behaviours", {})
@@ -830,8 +831,8 @@ def option_classes():
 
     class Scripted(FiniteDistribution):
         """A distribution whose samples are dictated by the TLC behaviour being replayed."""
-        def __init__(self, inner, queue, kind):
-            self.inner, self.queue, self.kind = inner, queue, kind
+        def __init__(self, inner, queue, kind, ctl=None):
+            self.inner, self.queue, self.kind, self.ctl = inner, queue, kind, ctl
 
         @property
         def support(self):
@@ -841,6 +842,8 @@ def option_classes():
             return self.inner.prob(e)
 
         def sample(self, *, rng=random, k=1):
+            if self.ctl is not None and not self.ctl["scripted"]:      # free-running phase (earlier run elsewhere)
+                return self.inner.sample(rng=rng)
             if not self.queue:
                 raise ScriptExhausted(self.kind)
             x = self.queue.pop(0)
@@ -894,6 +897,33 @@ def option_classes():
             return f"RecPlanOption({self.name})"
 
     return Scripted, RecPolicy, SimpleOption, RecPlanOption
+
+
+def other_dynamics(rng, m):
+    """An MDP over the same states, actions, availability and labels with other transitions and rewards."""
+    N, K, PD = m["N"], m["K"], m["PD"]
+    for _ in range(20):
+        P = [[gen.rand_row(rng, N, PD) for _ in range(K)] for _ in range(N)]
+        if P != m["P"]:
+            break
+    R = [[[rng.choice((-7, -6, 5, 6, 7)) for _ in range(N)] for _ in range(K)] for _ in range(N)]
+    g = rng.choice([g for g in [(1, 2), (3, 4), (1, 1)] if F(*g) != F(m["GN"], m["GD"])] if m["GN"] else [(1, 2)])
+    return dict(m, P=P, R=R, GN=g[0], GD=g[1])
+
+
+def run_elsewhere_first(case, option, rep):
+    """Call history: the same option object is executed once on another MDP (same labels, other dynamics)."""
+    prev = case.get("prev")
+    if not prev:
+        return
+    rng = random.Random(digest(case["m"]) + digest(case["rep"]))      # the seed the labels of the base came from
+    pb, _, _, _ = make_base(prev["m"], dict(rep, kind="quick" if rep["kind"] == "matrices" else rep["kind"]), rng)
+    try:
+        with warnings.catch_warnings():
+            warnings.simplefilter("ignore")
+            option.run_on(pb.mdp, pb.slabel[prev["s0"]], rng=random.Random(11))
+    except Exception:                                                # noqa: BLE001 - only the history matters
+        pass
 
 
 def policy_fn(b, pol):
@@ -955,7 +985,8 @@ def make_opt_cases(rng, n, tier):
         if rep["kind"] == "subclass_inst" and (GN, GD) == (1, 1):
             rep["gclass"] = (1, 2)
         cases.append({"m": m, "rep": rep, "term": term, "pol": rand_policy(rng, m), "lim": i % 5,
-                      "term_as": rng.choice(["set", "list"])})
+                      "term_as": rng.choice(["set", "list"]),
+                      "prev": ({"m": other_dynamics(rng, m), "s0": rng.randrange(N)} if rng.random() < 0.6 else None)})
     return cases
 
 
@@ -968,8 +999,11 @@ def scripted_world(case, aq, nq):
     b, _, _, tab = make_base(m, case["rep"], rng)
     wrap_method(b.mdp, "next_state_dist", lambda orig: (lambda s, a: Scripted(orig(s, a), nq, "successor")))
     pf = policy_fn(b, case["pol"])
-    pol = FunctionalPolicy(lambda s: Scripted(pf(s), aq, "action"))
+    ctl = {"scripted": False}
+    pol = FunctionalPolicy(lambda s: Scripted(pf(s), aq, "action", ctl))
     opt = SimpleOption("o", pol, [b.slabel[s] for s in case["term"]], b.slabel, case["lim"], case["term_as"])
+    run_elsewhere_first(case, opt, case["rep"])      # free-running, on another MDP, before the scripted replay
+    ctl["scripted"] = True
     return b, opt
 
 
@@ -1017,6 +1051,8 @@ def opt_real(case, rec):
 def opt_batch_record(c):
     m = c["m"]
     rec = {k: m[k] for k in MDPF}
+    pm = (c.get("prev") or {}).get("m") or m
+    rec.update(prev=1 if c.get("prev") else 0, prevP=pm["P"], prevR=pm["R"])
     rec.update(term=[s + 1 for s in c["term"]], pol=c["pol"], lim=c["lim"], hmax=c["lim"],
                starts=[s + 1 for s in c.get("starts", range(m["N"]))])
     return rec
@@ -1136,7 +1172,7 @@ def make_corridor_case(rng, i):
            "pol": [[3, 1][:K] for _ in range(N)], "term_as": rng.choice(["set", "list"])}
     return {"m": m, "rep": rep, "opts": [opt], "n": rng.choice([1, 2, 3]), "seed": rng.choice([None, 0, 7]),
             "inclprim": rng.choice([0, 1]), "queries": [[0, 0]] + ([[rng.randrange(1, L // 3), 0]] if rng.random() < 0.4 else []),
-            "corridor": L}
+            "corridor": L, "prev": ({"m": other_dynamics(rng, m), "s0": 0} if rng.random() < 0.5 else None)}
 
 
 def make_trace_cases(rng, n, tier):
@@ -1173,7 +1209,8 @@ def make_trace_cases(rng, n, tier):
             nonterm = [s for s in range(N) if s not in opts[oi]["term"]]
             queries.append([rng.choice(nonterm) if nonterm and rng.random() < 0.85 else rng.randrange(N), oi])
         cases.append({"m": m, "rep": rep, "opts": opts, "n": nsim, "seed": rng.choice([None, 0, 1, 12345, 2 ** 31]),
-                      "inclprim": rng.choice([0, 1]), "queries": queries})
+                      "inclprim": rng.choice([0, 1]), "queries": queries,
+                      "prev": ({"m": other_dynamics(rng, m), "s0": rng.randrange(N)} if rng.random() < 0.6 else None)})
     return cases
 
 
@@ -1201,6 +1238,20 @@ def trace_world(case):
                                          planner=ValueIteration(max_residual=1e-8, max_iterations=500),
                                          include_mdp_absorbing_states=bool(o["incl"]), name=o["name"], max_steps=o["lim"],
                                          max_nonterminal_pseudoreward=(float("inf") if o["clip"] is None else float(o["clip"]))))
+    if case.get("prev"):
+        # call history: the same option objects were first used by a semi-MDP over another MDP (same labels,
+        # other transitions, rewards and discount)
+        prev = case["prev"]
+        pb, _, _, _ = make_base(prev["m"], dict(case["rep"], kind="quick" if case["rep"]["kind"] == "matrices" else case["rep"]["kind"]),
+                                random.Random(digest(case["m"]) + digest(case["rep"])))
+        before = SemiMarkovDecisionProcess(mdp=pb.mdp, options=options, n_option_simulations=1, seed=5)
+        for o, od in zip(options, case["opts"]):
+            if od["type"] == "simple":
+                try:
+                    before.next_state_transit_time_reward_dist(pb.slabel[prev["s0"]], o)
+                except Exception:                                    # noqa: BLE001 - only the history matters
+                    pass
+        del log[:]
     smdp = SemiMarkovDecisionProcess(mdp=b.mdp, options=options, n_option_simulations=case["n"],
                                      include_mdp_actions=bool(case["inclprim"]), seed=case["seed"])
     return b, smdp, options, log
@@ -1320,6 +1371,7 @@ def trace_record(case, ob):
     m = case["m"]
     od = case["opts"][ob["oi"]]
     rec = {k: m[k] for k in MDPF}
+    rec.update(prev=1 if (case.get("prev") and od["type"] == "simple") else 0)
     rec.update(term=[s + 1 for s in od["term"]], pol=ob["pol"], lim=od["lim"], hmax=trace_hmax(m, od["lim"]),
                n=case["n"], s0=ob["s0"] + 1,
                sims=ob["sims"], outcome=ob["outcome"] if ob["outcome"] != "error" else "dist",
@@ -1502,6 +1554,11 @@ def asbuilt_runs(ctx, aug_cases, opt_cases):
         res = tlc(ctx, "aug_shared", "aug", batch, "aug, variant with one class shared per (base class, overridden set), MC only: "
                   "expected counterexample to DerivedIsolated", variant="sharedclass")
         info["aug_sharedclass"] = sorted(set(res.violated))
+    oc = [c for c in opt_cases if c.get("prev") and c["lim"] >= 2][:4]
+    if oc:
+        res = tlc(ctx, "opt_memo", "opt", [opt_batch_record(c) for c in oc], "opt, variant that reuses the termination-augmented MDP of "
+                  "an earlier execution on another MDP, MC only: expected counterexample", variant="memo")
+        info["opt_memo"] = sorted(set(res.violated))
     ctx.extra["former_asbuilt_model_violates"] = info
 
 
